@@ -144,6 +144,7 @@ where
                 let vmax = vdomain.max();
                 let wmin = wdomain.min();
                 let wmax = wdomain.max();
+                let walked = [uwalk.clone(), vwalk.clone(), wwalk.clone()];
                 // The constraint is: u - v = w  <=>  u = w + v  <=>  v = u - w
                 //
                 // Given domains for u and v, we can then deduce that the domain of w must be
@@ -175,7 +176,7 @@ where
                             umin.saturating_sub(wmax)..=umax.saturating_sub(wmin),
                         )),
                     )?
-                    .with_constraint(self))
+                    .with_constraint_or_rerun(self, &walked)?)
             }
             // If all operators do not yet have domains, then keep the constraint until it can
             // be used to constrain some domains.
